@@ -22,12 +22,24 @@ CHECKS = {
  "C06": dict(tech="stateful PBT (proptest) + differential probe ([accrue; op] vs [op]) + monotonicity/idempotence invariants",
    text="Same campaign; after every successful transacting instruction: last_update == clock, share values never decrease, and re-running the instruction from the same pre-state after an explicit accrue gives bit-identical bank totals / share values / fees / vaults / user shares; accrue twice at one timestamp is byte-identical.",
    ref="DESIGN.md §6 C06"),
+ "C05": dict(tech="PBT (proptest) steered scenarios + bisection to the over-liquidation frontier + interval reference (health and the 95/97.5/2.5 split)",
+   text="Generated 3-bank worlds and liquidatee/liquidator portfolios; the collateral price is solved so maintenance health lands at a generated target (negative, zero, positive); seize amounts absolute / relative / exactly around the position and the largest accepted amount found by bisection on the real program. Every success is judged by exact-rational enclosures: was unhealthy, ends not positive and not worse, no side flips, liquidator initially healthy, and each of the five book entries lies in the enclosure of the documented formula; whole tokens to the insurance vault, fraction to outstanding insurance fees.",
+   ref="DESIGN.md §6 C05"),
+ "C07": dict(tech="PBT (proptest) constructed bankruptcies + exact-rational settlement oracle + terminality probe",
+   text="Generated depositor distributions, debt sizes up to 100% utilisation with fee-bearing accrual (so debt can exceed deposits), insurance placed below/at(+-2)/above the debt, signer x permissionless matrix, partial crashes as not-bankrupt controls, Token-2022 transfer fees. Every success judged in exact rationals (entitlement, real bankruptcy under at least one admissible reading, insurance first, exact pro-rata socialisation with untouched deposit shares, non-negative share value, kill on wipe-out, account disabled and debt cleared) and a killed bank is probed with every configure_bank(operational_state) and a deposit.",
+   ref="DESIGN.md §6 C07"),
  "C09": dict(tech="PBT (proptest) over fabricated oracle accounts against the public price-adapter API + exact-rational oracle",
    text="Pure-function half: every oracle kind (Pyth push, Switchboard pull, fixed, staked, Kamino/Drift/Solend exchange-rate variants) x prices/EMA/confidence/exponents over their integer ranges x publish times around the staleness boundary x max-age / max-confidence settings x authenticity faults (wrong key, owner, discriminator, truncated data, partial verification): a usable price only if authentic, fresh and confident; low <= p <= high with band = min(k*sigma, 5% p) within derived ulps; both outcomes observed on each boundary.",
    ref="DESIGN.md §6 C09", note="Pure functions called natively with fabricated AccountInfos (no runtime). Instruction-level half (doctored oracle inside borrow/withdraw/liquidate/bankruptcy) is exercised by C04's stale-collateral cases and the campaign; exact-rational reference arithmetic."),
+ "C15": dict(tech="exhaustive bounded state-space enumeration over a boundary alphabet + random long histories (proptest), history invariants against an independent reference pause machine",
+   text="The real PanicState / PanicStateCache transition functions (glued exactly as the four handlers glue them) driven by (a) exhaustive sequences over {pause, admin-unpause, permissionless-unpause, propagate, wait(boundary delta)} with state hashing, complete to depth 32 (quick) / 48 (thorough), and (b) random long histories; invariants: each pause pushes paused_until by <= 30 min, never > 60 min ahead, <= 3 pauses between daily resets >= 24 h apart, expired pauses stop gating without any call (fee state and stale group cache), permissionless unpause iff expired, admin unpause never fails. Instruction-level wiring of the same handlers is exercised under C14.",
+   ref="DESIGN.md §6 C15", note="Pure state-transition functions called natively with a thread-local clock stub; handler glue mirrored by hand (line references in the module)."),
  "C16": dict(tech="stateful PBT (proptest) + structural invariants on raw account bytes",
    text="Same campaign; every account after every transaction: distinct banks, one side per bank, sorted slots, tag compatibility, position bounds, stable tags; close/transfer/disabled rules checked against pre/post snapshots.",
    ref="DESIGN.md §6 C16"),
+ "C18": dict(tech="PBT (proptest) over curve configurations x dense utilisation sweeps, exact-rational piecewise-linear reference",
+   text="Valid (constructed) and invalid seven-point configs over the full u32 range incl. adjacent/extreme points, legacy three-point configs and their migration; utilisation swept at every breakpoint +-{0,1,2} ulps, 0, 1, beyond, and >= 64 points per segment: defined, bounded by the end rates, exact at configured points, monotone, within the derived (dy+1)-ulp band of exact interpolation, borrow >= base, lending <= base for u <= 1, structural validity of accepted configs, and an accrual step succeeds.",
+   ref="DESIGN.md §6 C18", note="Pure functions called natively; exact arithmetic with num-rational."),
  "C20": dict(tech="PBT (proptest), overflow-directed generators, exact big-integer/rational oracle on the public conversion functions",
    text="Kamino/Solend/Drift conversion and price-adjustment functions called directly: round trips never gain, Drift burn >= mint, adjusted price within derived truncation band of price x exact rate and monotone, fail-closed on overflow / zero divisors (never wrapped), staleness predicates at the slot/second boundary. The literal 'never exceeds price x exact rate' clause is violated by double flooring and recorded as two known findings (separate streams, so nothing else is masked).",
    ref="DESIGN.md §6 C20", note="Pure functions; venue state structs fabricated with bytemuck; exact arithmetic with num-bigint."),
